@@ -110,6 +110,10 @@ def run_models(ctx, quick):
         declared = {f[1] for f in disc["classes"].get(c["cls"], [])}
         da = untag(a["dump"]) if a["ok"] else None
         db = untag(b["dump"]) if b["ok"] else None
+        # the same view dumped with wire names but without dropping nulls must not lose anything either
+        for x in (a, b):
+            if x["ok"] and not lossless(w, untag(x.get("dump_alias_only", x["dump"]))):
+                x["stable"] = False
         recs.append({"kind": "model", "cls": c["cls"].split(".")[-1], "okP": bool(a["ok"]), "okF": bool(b["ok"]),
                      "typedEq": a["typed"] == b["typed"], "dumpEq": a["dump"] == b["dump"],
                      "losslessP": bool(a["ok"] and a["stable"] and lossless(w, da) and added_ok(w, da, declared)),
@@ -313,18 +317,21 @@ EMITTERS = {
     "legacy.create_request": "request", "legacy.create_notification": "notification", "legacy.create_response": "result", "legacy.create_error_response": "error",
     # messages written by the sending helpers (captured at the write stream) and built by the batch processor
     "send_message": "request", "send_tools_call": "request", "send_cancelled_notification": "notification", "send_progress_notification": "notification",
+    # a request as the transports' serialisers put it on the wire (stdin line / POST body)
+    "stdio_writer": "request", "http_post": "request", "sse_post": "request",
     "batch.item_error:plain": "error", "batch.item_error:intcode": "error", "batch.item_error:strcode": "error", "batch.item_error:nullcode": "error", "batch.item_error:floatcode": "error",
 }
 HELPER_EMITTERS = {"send_message", "send_tools_call", "send_cancelled_notification", "send_progress_notification"}
 PAYLOADS = [None, {}, {"a": 1}, {"nil": None}, {"l": [None, 1, {"x": None}]}, {"deep": {"d": {"e": [None]}}, "big": 2**63 + 1, "f": 1.5, "neg0": -0.0},
-            {"s": "line\nbreak \r  \U0001F600 \x00", "": "empty key", "ключ": "é"}, {"_meta": {"progressToken": "p"}, "cursor": "c"}, {"e": [], "o": {}}]
+            {"s": "line\nbreak \r  \U0001F600 \x00", "": "empty key", "ключ": "é"}, {"_meta": {"progressToken": "p"}, "cursor": "c"}, {"e": [], "o": {}},
+            {"sep": "ls\u2028 ps\u2029 nel\u0085 del\x7f c1\x9f vt\x0b ff\x0c", "k\u2028\u0085": ["\u2029"]}]
 IDVALS = [0, 1, -1, 2**63, 2**64 - 1, "", "abc", "123", "007", "uuid-1234"]
 
 
 def check_c02(ctx):
     quick = ctx.tier == "quick"
     ctx.cov["rule"] = ("cases = (emitter, id, payload, back end, serialised form): the 13 message constructors (typed classes, create_* helpers, legacy class methods) x 10 ids (0, negative, 2^63, 2^64-1, empty/digit/text strings) "
-                       "x 9 payload shapes (absent, empty, nested nulls, large ints, floats, control/separator/astral characters, non-ASCII keys, _meta) x {model_dump(exclude_none), model_dump_json}, each parsed back with parse_message; "
+                       "x 10 payload shapes (absent, empty, nested nulls, large ints, floats, control/line-separator/astral characters in values and keys, non-ASCII keys, _meta) x {model_dump(exclude_none), model_dump_json}, each parsed back with parse_message; "
                        "plus the emitters exercised by the other checks (typed request helpers in C01/C07, server handler in C08, transports' synthesised messages in C11/C12); distinct_nontrivial = distinct cases")
     ctx.assumptions += ["result payload null is replaced by {} by the create_* helpers; a typed JSONRPCResponse built directly with result=None is outside 'messages the library constructs'",
                         "id value and JSON type, and payload equality, are compared by the harness as tagged trees"]
